@@ -483,6 +483,13 @@ class Evaluator:
             keys &= set(s[0])
         site = frame_site(frame.chain, frame.body, bi)
         for k in keys:
+            vals = [s[0][k] for s in states]
+            if len(states) > 2 and all(isinstance(x, Lin) and x.is_const() for x in vals) and all(o is not None for o in origins) and len(set(vals)) > 1:
+                # a flag set to constants on several edges: keep every (constant, edge) pair, also when two edges set the same constant
+                pairs = sorted(set(zip(vals, origins)), key=repr)
+                if len(pairs) <= 6:
+                    env[k] = ("phi", site, k, tuple(p[0] for p in pairs), tuple(p[1] for p in pairs))
+                    continue
             v = states[0][0][k]
             o = origins[0]
             for s, o2 in zip(states[1:], origins[1:]):
@@ -1511,6 +1518,21 @@ class Evaluator:
                 return ("chunksnext", r[1], r[2]) + tuple(r[3:])
             self._invalidate(args)
             return ("call", c, tuple(args))
+        if re.search(r"iter::Iterator>?::for_each$|Iterator::for_each$", c) and len(args) == 2 and tag(args[0]) == "chunks":
+            # chunks.for_each(f): f is applied to the consecutive chunks in order (the contract of slice::chunks / chunks_exact); evaluated once on a
+            # generic chunk, every entry of the closure is marked with the chunks term it ranges over
+            fval = self._deref_val(args[1])
+            cb = self.facts.body(fval[1]) if tag(fval) == "closure" else None
+            if cb is not None and self._should_inline(cb, cb.path):
+                ch = args[0]
+                nxt = ("chunksnext", ch[1], ch[2]) + tuple(ch[3:])
+                cself = ("ref", ("tmp", fval)) if cb.locals[1]["ty"].startswith("&") else fval
+                entry2 = self._log(frame, bi, None, kind="closure-call", closure=fval, on="each-chunk", recv=ch)
+                n0 = len(self.log)
+                self._inline(frame, bi, cb, [cself, ("payload", nxt, "Some", 0)], entry2)
+                for e_ in self.log[n0:]:
+                    e_["foreach"] = nxt
+                return ("tuple", ())
         if re.search(r"Option::<.*>::filter$", c) and len(args) == 2:
             # opt.filter(p): Some(x) iff opt is Some(x) and p(&x); represented as ("filter", opt, p(&x)) - its discriminant carries both facts
             recv, fval = args[0], self._deref_val(args[1])
